@@ -1,4 +1,484 @@
+/-
+C30 properties: the mount's write buffering (ContinuousIntervals / WrittenContinuousIntervals, the two dirty-page
+buffers, the open file) against the POSIX byte semantics of one open file.  Model: SwV/Model/C30.lean (validated
+against the Go code), spec: SwV/Spec/C30.lean.  Auxiliary lemmas: SwV/Lemmas/C30.lean, SwV/Lemmas/C30b.lean.
+
+Definitions (restated here; definitionally equal to the ones the lemma files use, see `nodeOk_iff` … `dirtyByte_eq`):
+  NodeOk, Chained, ListOk, Inv    the interval-list invariant: usable nodes, every list contiguous (each node starts where the
+                                  previous stops), any two lists separated by a GAP (disjoint and not adjacent)
+  dirtyByte                       the dirty byte at a position (first covering node of the flattened lists)
+  (core Lean 4.33 has neither List.IsChain nor List.Chain'; `Chained` is the three-line recursive definition)
+
+(P1) the invariant is preserved by every operation
+  addInterval_inv       AddInterval keeps `Inv` (both buffers, any node of positive size, any overlap pattern)
+  removeLargest_inv     RemoveLargestIntervalLinkedList: the removed list is ListOk, the rest keeps `Inv`, lists ~ removed :: rest,
+                        and the removed list is a largest one
+  removeLargest_none    under `Inv`: nothing is removed iff the buffer is empty
+  inv_temp_append       appending to the temp file keeps `Inv` of the temp-file buffer
+(P2) addInterval_byte   AddInterval is "last write wins" byte by byte
+(P3) readDataAt_spec    ReadDataAt delivers exactly the dirty bytes of the window, `none` (untouched) elsewhere
+     readDataAt_maxStop maxStop ≥ min(off+len, stop) of every list meeting the window, and it is 0 or one of these values
+     readDataAt_maxStop_covers   every dirty position of the window lies below maxStop
+(P4) read_eq_posix_mem, read_eq_posix_tmp     for EVERY sequence of non-empty writes (any offsets, overlapping, out of
+                        order): the dirty read of a window, laid over zeros, is the POSIX content of the window
+     read_untouched_is_hole_mem / _tmp         a position the dirty read leaves untouched is a zero byte (hole / beyond EOF) of
+                        the POSIX file
+     read_dirty_is_posix_mem / _tmp            a position the dirty read fills lies inside the POSIX file and carries its byte
+                        (what `dirtyReadJudge` checks)
+
+(P5) flush_eq_posix_partial   for EVERY history of non-empty writes and flushes (no truncate), both buffers, every chunk
+                        limit ≥ 1: after a final flush a fresh reader of the stored entry (C17 reader `resolve`) gets exactly
+                        the POSIX file.  `_partial`: the hypothesis "no truncate op in the history" is the complement of the
+                        known Setattr findings (dirty pages not truncated / chunks below the new size dropped).
+     run_sinv           the state invariant behind it (holds after every prefix of the history)
+     run_fileSize       along the history: FileSize = POSIX length, `Inv` holds, every dirty byte is the POSIX byte
+     truncate_breaks_flush_witness   a truncate in the history breaks "flushed entry = POSIX file" (temp-file buffer:
+                        write 0 [1,2,3,4]; truncate 2; flush ⇒ a reader gets [1,2,3,4], POSIX [1,2])
+
+bridge_*                the regenerated branch conditions / pinned sources of the modelled Go functions (T1 tie)
+
+Only `flush_eq_posix_partial` is `_partial` (reason above).  All other theorems are proved as stated in the task (the
+only change: `ListOk` uses `Chained` because core has no `List.IsChain`).
+-/
 import SwV.Model.C30
 import SwV.Spec.C30
+import SwV.Lemmas.C30b
+import SwV.Gen.C30
 namespace SwV.Props.C30
+open SwV.Model.C30 SwV.Spec.C30
+
+/-! ### the invariant -/
+
+/-- a node is usable: positive size; in-memory: carries exactly `size` bytes; temp-file: its section lies inside the temp file -/
+def NodeOk (tk : Bool) (temp : List Nat) (n : Node) : Prop :=
+  0 < n.size ∧ (tk = false → n.data.length = n.size) ∧ (tk = true → n.tmp + n.size ≤ temp.length)
+
+/-- each node starts where the previous one stops (sorted + contiguous) -/
+def Chained : LList → Prop
+  | [] => True
+  | [_] => True
+  | a :: b :: r => a.off + a.size = b.off ∧ Chained (b :: r)
+
+/-- one linked list: non-empty, usable nodes, contiguous -/
+def ListOk (tk : Bool) (temp : List Nat) (l : LList) : Prop :=
+  l ≠ [] ∧ (∀ n ∈ l, NodeOk tk temp n) ∧ Chained l
+
+/-- the interval-list invariant: every list is ListOk and any two lists are separated by a GAP
+    (disjoint and not adjacent — adjacent lists have been merged) -/
+def Inv (tk : Bool) (temp : List Nat) (lists : List LList) : Prop :=
+  (∀ l ∈ lists, ListOk tk temp l) ∧ lists.Pairwise (fun a b => tailStop a < headOff b ∨ tailStop b < headOff a)
+
+/-- the dirty byte at position p, if some node of some list covers p -/
+def dirtyByte (tk : Bool) (temp : List Nat) (lists : List LList) (p : Nat) : Option Nat :=
+  (lists.flatten.find? (fun n => n.off ≤ p ∧ p < n.off + n.size)).map (fun n => (nodeBytes tk temp n).getD (p - n.off) 0)
+
+theorem nodeOk_iff (tk : Bool) (temp : List Nat) (n : Node) : NodeOk tk temp n ↔ SwV.Lemmas.C30.NodeOk tk temp n := Iff.rfl
+
+theorem chained_iff : ∀ (l : LList), Chained l ↔ SwV.Lemmas.C30.Chained l
+  | [] => Iff.rfl
+  | [_] => Iff.rfl
+  | a :: b :: r => by
+    show (a.off + a.size = b.off ∧ Chained (b :: r)) ↔ (a.off + a.size = b.off ∧ SwV.Lemmas.C30.Chained (b :: r))
+    rw [chained_iff (b :: r)]
+
+theorem listOk_iff (tk : Bool) (temp : List Nat) (l : LList) : ListOk tk temp l ↔ SwV.Lemmas.C30.ListOk tk temp l := by
+  unfold ListOk SwV.Lemmas.C30.ListOk
+  rw [chained_iff]
+  exact Iff.rfl
+
+theorem inv_iff (tk : Bool) (temp : List Nat) (lists : List LList) : Inv tk temp lists ↔ SwV.Lemmas.C30.LInv tk temp lists := by
+  unfold Inv SwV.Lemmas.C30.LInv
+  constructor
+  · rintro ⟨h1, h2⟩; exact ⟨fun l hl => (listOk_iff tk temp l).1 (h1 l hl), h2⟩
+  · rintro ⟨h1, h2⟩; exact ⟨fun l hl => (listOk_iff tk temp l).2 (h1 l hl), h2⟩
+
+theorem dirtyByte_eq (tk : Bool) (temp : List Nat) (lists : List LList) (p : Nat) :
+    dirtyByte tk temp lists p = SwV.Lemmas.C30.dirtyByte tk temp lists p := rfl
+
+example : Inv false [] [[⟨0, 2, 0, [7, 8]⟩, ⟨2, 1, 0, [9]⟩], [⟨5, 1, 0, [1]⟩]] := by
+  refine ⟨?_, by simp [headOff, tailStop]⟩
+  intro l hl
+  simp only [List.mem_cons, List.not_mem_nil, or_false] at hl
+  rcases hl with rfl | rfl
+  · exact ⟨by simp, by simp [NodeOk], ⟨rfl, trivial⟩⟩
+  · exact ⟨by simp, by simp [NodeOk], trivial⟩
+
+/-! ### (P1) the invariant is preserved -/
+
+theorem addInterval_inv (tk : Bool) (temp : List Nat) (lists : List LList) (n : Node) (h : Inv tk temp lists)
+    (hn : NodeOk tk temp n) : Inv tk temp (addInterval tk lists n) :=
+  (inv_iff _ _ _).2 (SwV.Lemmas.C30.addInterval_spec hn lists ((inv_iff _ _ _).1 h)).1
+
+example : Inv false [] [] ∧ NodeOk false [] ⟨3, 2, 0, [1, 2]⟩ := ⟨⟨by simp, List.Pairwise.nil⟩, by simp [NodeOk]⟩
+
+theorem removeLargest_inv (tk : Bool) (temp : List Nat) (lists : List LList) (h : Inv tk temp lists) (l : LList)
+    (rest : List LList) (hr : removeLargest lists = some (l, rest)) :
+    ListOk tk temp l ∧ Inv tk temp rest ∧ lists.Perm (l :: rest) ∧ (∀ l' ∈ rest, lsize l' ≤ lsize l) := by
+  obtain ⟨h1, h2, h3, h4⟩ := SwV.Lemmas.C30.removeLargest_spec ((inv_iff _ _ _).1 h) hr
+  exact ⟨(listOk_iff _ _ _).2 h1, (inv_iff _ _ _).2 h2, h3, h4⟩
+
+example : removeLargest [[⟨0, 2, 0, [7, 8]⟩], [⟨5, 1, 0, [1]⟩]] = some ([⟨0, 2, 0, [7, 8]⟩], [[⟨5, 1, 0, [1]⟩]]) := by decide
+
+theorem removeLargest_none (tk : Bool) (temp : List Nat) (lists : List LList) (h : Inv tk temp lists) :
+    removeLargest lists = none ↔ lists = [] :=
+  SwV.Lemmas.C30.removeLargest_none_iff ((inv_iff _ _ _).1 h)
+
+/-- temp-file buffer: appending to the temp file keeps the invariant (sections stay inside the longer file) -/
+theorem inv_temp_append (temp more : List Nat) (lists : List LList) (h : Inv true temp lists) :
+    Inv true (temp ++ more) lists :=
+  (inv_iff _ _ _).2 (SwV.Lemmas.C30.linv_temp_append more ((inv_iff _ _ _).1 h))
+
+example : Inv true [4, 5, 6] [[⟨10, 2, 1, []⟩]] :=
+  ⟨by intro l hl; simp only [List.mem_singleton] at hl; subst hl; exact ⟨by simp, by simp [NodeOk], trivial⟩, by simp⟩
+
+/-! ### (P2) AddInterval is "last write wins" on bytes -/
+
+theorem addInterval_byte (tk : Bool) (temp : List Nat) (lists : List LList) (n : Node) (h : Inv tk temp lists)
+    (hn : NodeOk tk temp n) (p : Nat) :
+    dirtyByte tk temp (addInterval tk lists n) p =
+      if n.off ≤ p ∧ p < n.off + n.size then some ((nodeBytes tk temp n).getD (p - n.off) 0) else dirtyByte tk temp lists p :=
+  SwV.Lemmas.C30.addInterval_dirtyByte hn lists ((inv_iff _ _ _).1 h) p
+
+example : dirtyByte false [] (addInterval false [[⟨0, 3, 0, [7, 8, 9]⟩]] ⟨1, 1, 0, [5]⟩) 1 = some 5 ∧
+    dirtyByte false [] (addInterval false [[⟨0, 3, 0, [7, 8, 9]⟩]] ⟨1, 1, 0, [5]⟩) 2 = some 9 := by decide
+
+/-! ### (P3) ReadDataAt -/
+
+theorem readDataAt_spec (tk : Bool) (temp : List Nat) (lists : List LList) (h : Inv tk temp lists) (off len : Nat) :
+    (readDataAt tk temp lists off len).2 = (List.range len).map (fun i => dirtyByte tk temp lists (off + i)) :=
+  SwV.Lemmas.C30.readDataAt_bytes ((inv_iff _ _ _).1 h) off len
+
+example : (readDataAt false [] [[⟨2, 2, 0, [7, 8]⟩]] 1 4).2 = [none, some 7, some 8, none] := by decide
+
+/-- maxStop is at least min(off+len, stop) of every list that meets the window, and it is 0 or one of these values
+    (hence 0 iff no list meets the window, else the largest of them) -/
+theorem readDataAt_maxStop (tk : Bool) (temp : List Nat) (lists : List LList) (h : Inv tk temp lists) (off len : Nat) :
+    (∀ l ∈ lists, max off (headOff l) < min (off + len) (tailStop l) →
+      min (off + len) (tailStop l) ≤ (readDataAt tk temp lists off len).1) ∧
+    ((readDataAt tk temp lists off len).1 = 0 ∨
+      ∃ l ∈ lists, max off (headOff l) < min (off + len) (tailStop l) ∧
+        (readDataAt tk temp lists off len).1 = min (off + len) (tailStop l)) := by
+  have := SwV.Lemmas.C30.readDataAt_max_fold (off := off) (len := len) lists (0, List.replicate len none) ((inv_iff _ _ _).1 h)
+  rw [← SwV.Lemmas.C30.readDataAt_eq] at this
+  exact ⟨this.2.1, this.2.2⟩
+
+/-- every dirty position of the window lies below maxStop (the caller reads only [off, maxStop) from the buffer) -/
+theorem readDataAt_maxStop_covers (tk : Bool) (temp : List Nat) (lists : List LList) (h : Inv tk temp lists) (off len i : Nat)
+    (hi : i < len) (hd : dirtyByte tk temp lists (off + i) ≠ none) : off + i < (readDataAt tk temp lists off len).1 := by
+  have hinv := (inv_iff _ _ _).1 h
+  cases hb : dirtyByte tk temp lists (off + i) with
+  | none => exact absurd hb hd
+  | some b =>
+    obtain ⟨l, hl, hh⟩ := (SwV.Lemmas.C30.dirtyByte_eq_some hinv _ _).1 hb
+    have hr := SwV.Lemmas.C30.lhas_range (hinv.1 l hl) hh
+    have := (readDataAt_maxStop tk temp lists h off len).1 l hl (by omega)
+    omega
+
+/-! ### (P4) any sequence of writes: the dirty read is the POSIX content -/
+
+/-- in-memory buffer after the writes ws (offset, bytes) -/
+def memLists (ws : List (Nat × List Nat)) : List LList :=
+  ws.foldl (fun ls w => addInterval false ls { off := w.1, size := w.2.length, tmp := 0, data := w.2 }) []
+
+/-- temp-file buffer after the writes: (temp file, lists) -/
+def tmpState (ws : List (Nat × List Nat)) : List Nat × List LList :=
+  ws.foldl (fun (s : List Nat × List LList) w =>
+    (s.1 ++ w.2, addInterval true s.2 { off := w.1, size := w.2.length, tmp := s.1.length, data := [] })) ([], [])
+
+def posixOf (ws : List (Nat × List Nat)) : File := ws.foldl (fun f w => pwrite f w.1 w.2) []
+
+theorem memLists_inv (ws : List (Nat × List Nat)) (hne : ∀ w ∈ ws, w.2 ≠ []) : Inv false [] (memLists ws) :=
+  (inv_iff _ _ _).2 (SwV.Lemmas.C30.memFold_spec ws [] (SwV.Lemmas.C30.linv_nil _ _) hne).1
+
+theorem tmpState_inv (ws : List (Nat × List Nat)) (hne : ∀ w ∈ ws, w.2 ≠ []) : Inv true (tmpState ws).1 (tmpState ws).2 :=
+  (inv_iff _ _ _).2 (SwV.Lemmas.C30.tmpFold_spec ws ([], []) (SwV.Lemmas.C30.linv_nil _ _) hne).1
+
+/-- the dirty byte of either buffer at p, default 0, is the POSIX byte at p (0 beyond EOF) -/
+theorem dirtyByte_posix_mem (ws : List (Nat × List Nat)) (hne : ∀ w ∈ ws, w.2 ≠ []) (p : Nat) :
+    dirtyByte false [] (memLists ws) p = SwV.Lemmas.C30.written none ws p ∧
+    (posixOf ws).getD p 0 = (SwV.Lemmas.C30.written none ws p).getD 0 := by
+  refine ⟨?_, SwV.Lemmas.C30.posix_fold p ws [] none hne rfl⟩
+  have := (SwV.Lemmas.C30.memFold_spec ws [] (SwV.Lemmas.C30.linv_nil _ _) hne).2 p
+  exact this
+
+theorem dirtyByte_posix_tmp (ws : List (Nat × List Nat)) (hne : ∀ w ∈ ws, w.2 ≠ []) (p : Nat) :
+    dirtyByte true (tmpState ws).1 (tmpState ws).2 p = SwV.Lemmas.C30.written none ws p := by
+  have := (SwV.Lemmas.C30.tmpFold_spec ws ([], []) (SwV.Lemmas.C30.linv_nil _ _) hne).2 p
+  exact this
+
+theorem read_eq_posix_mem (ws : List (Nat × List Nat)) (hne : ∀ w ∈ ws, w.2 ≠ []) (off len : Nat) :
+    ((readDataAt false [] (memLists ws) off len).2.map (·.getD 0)) =
+      (pread (posixOf ws) off len) ++ List.replicate (len - (pread (posixOf ws) off len).length) 0 := by
+  rw [readDataAt_spec _ _ _ (memLists_inv ws hne), SwV.Lemmas.C30.pread_pad, List.map_map]
+  apply List.map_congr_left
+  intro i _
+  obtain ⟨h1, h2⟩ := dirtyByte_posix_mem ws hne (off + i)
+  simp only [Function.comp]
+  rw [h1, h2]
+
+theorem read_eq_posix_tmp (ws : List (Nat × List Nat)) (hne : ∀ w ∈ ws, w.2 ≠ []) (off len : Nat) :
+    ((readDataAt true (tmpState ws).1 (tmpState ws).2 off len).2.map (·.getD 0)) =
+      (pread (posixOf ws) off len) ++ List.replicate (len - (pread (posixOf ws) off len).length) 0 := by
+  rw [readDataAt_spec _ _ _ (tmpState_inv ws hne), SwV.Lemmas.C30.pread_pad, List.map_map]
+  apply List.map_congr_left
+  intro i _
+  have h1 := dirtyByte_posix_tmp ws hne (off + i)
+  have h2 := (dirtyByte_posix_mem ws hne (off + i)).2
+  simp only [Function.comp]
+  rw [h1, h2]
+
+example : ∀ w ∈ [((3 : Nat), [1, 2]), (1, [9, 9, 9]), (7, [5])], w.2 ≠ [] := by decide
+
+example : (readDataAt true (tmpState [(3, [1, 2]), (1, [9, 9, 9]), (7, [5])]).1 (tmpState [(3, [1, 2]), (1, [9, 9, 9]), (7, [5])]).2 0 9).2
+    = [none, some 9, some 9, some 9, some 2, none, none, some 5, none] := by decide
+
+theorem read_untouched_is_hole_mem (ws : List (Nat × List Nat)) (hne : ∀ w ∈ ws, w.2 ≠ []) (off len i : Nat)
+    (h : (readDataAt false [] (memLists ws) off len).2[i]? = some none) : (posixOf ws).getD (off + i) 0 = 0 := by
+  rw [readDataAt_spec _ _ _ (memLists_inv ws hne), List.getElem?_map] at h
+  obtain ⟨h1, h2⟩ := dirtyByte_posix_mem ws hne (off + i)
+  cases hr : (List.range len)[i]? with
+  | none => rw [hr] at h; cases h
+  | some j =>
+    have hj : j = i := by
+      have := List.getElem?_eq_some_iff.1 hr
+      obtain ⟨hlt, he⟩ := this
+      simpa using he.symm
+    subst hj
+    rw [hr, Option.map_some, Option.some.injEq, h1] at h
+    rw [h2, h]
+    rfl
+
+theorem read_untouched_is_hole_tmp (ws : List (Nat × List Nat)) (hne : ∀ w ∈ ws, w.2 ≠ []) (off len i : Nat)
+    (h : (readDataAt true (tmpState ws).1 (tmpState ws).2 off len).2[i]? = some none) : (posixOf ws).getD (off + i) 0 = 0 := by
+  rw [readDataAt_spec _ _ _ (tmpState_inv ws hne), List.getElem?_map] at h
+  have h1 := dirtyByte_posix_tmp ws hne (off + i)
+  have h2 := (dirtyByte_posix_mem ws hne (off + i)).2
+  cases hr : (List.range len)[i]? with
+  | none => rw [hr] at h; cases h
+  | some j =>
+    have hj : j = i := by
+      have := List.getElem?_eq_some_iff.1 hr
+      obtain ⟨hlt, he⟩ := this
+      simpa using he.symm
+    subst hj
+    rw [hr, Option.map_some, Option.some.injEq, h1] at h
+    rw [h2, h]
+    rfl
+
+/-- a position the dirty read FILLS lies inside the POSIX file and carries its byte (what `dirtyReadJudge` checks) -/
+theorem read_dirty_is_posix_mem (ws : List (Nat × List Nat)) (hne : ∀ w ∈ ws, w.2 ≠ []) (off len i b : Nat)
+    (h : (readDataAt false [] (memLists ws) off len).2[i]? = some (some b)) :
+    off + i < (posixOf ws).length ∧ (posixOf ws).getD (off + i) 0 = b := by
+  rw [readDataAt_spec _ _ _ (memLists_inv ws hne), List.getElem?_map] at h
+  obtain ⟨h1, h2⟩ := dirtyByte_posix_mem ws hne (off + i)
+  cases hr : (List.range len)[i]? with
+  | none => rw [hr] at h; cases h
+  | some j =>
+    have hj : j = i := by
+      obtain ⟨hlt, he⟩ := List.getElem?_eq_some_iff.1 hr
+      simpa using he.symm
+    subst hj
+    rw [hr, Option.map_some, Option.some.injEq, h1] at h
+    refine ⟨SwV.Lemmas.C30.posix_fold_len _ ws [] none hne (fun hh => absurd rfl hh) (by rw [h]; simp), ?_⟩
+    rw [h2, h]
+    rfl
+
+theorem read_dirty_is_posix_tmp (ws : List (Nat × List Nat)) (hne : ∀ w ∈ ws, w.2 ≠ []) (off len i b : Nat)
+    (h : (readDataAt true (tmpState ws).1 (tmpState ws).2 off len).2[i]? = some (some b)) :
+    off + i < (posixOf ws).length ∧ (posixOf ws).getD (off + i) 0 = b := by
+  rw [readDataAt_spec _ _ _ (tmpState_inv ws hne), List.getElem?_map] at h
+  have h1 := dirtyByte_posix_tmp ws hne (off + i)
+  have h2 := (dirtyByte_posix_mem ws hne (off + i)).2
+  cases hr : (List.range len)[i]? with
+  | none => rw [hr] at h; cases h
+  | some j =>
+    have hj : j = i := by
+      obtain ⟨hlt, he⟩ := List.getElem?_eq_some_iff.1 hr
+      simpa using he.symm
+    subst hj
+    rw [hr, Option.map_some, Option.some.injEq, h1] at h
+    refine ⟨SwV.Lemmas.C30.posix_fold_len _ ws [] none hne (fun hh => absurd rfl hh) (by rw [h]; simp), ?_⟩
+    rw [h2, h]
+    rfl
+
+/-! ### (P5) flush: witnesses that a truncate in the history breaks the refinement -/
+
+open SwV.Model.C17 (resolveList resolveNode outside sortChunks viewFromChunks nonOverlapping compact maxInt64) in
+theorem one_chunk_compact : compact [⟨0, 4, 0, 0, 0⟩] = ([⟨0, 4, 0, 0, 0⟩], []) := by
+  have hr : resolveList 0 maxInt64 [SwV.Model.C17.Node.data ⟨0, 4, 0, 0, 0⟩] = [⟨0, 4, 0, 0, 0⟩] := by
+    simp [resolveList, resolveNode, outside, maxInt64]
+  have hsrt : sortChunks [⟨0, 4, 0, 0, 0⟩] = [⟨0, 4, 0, 0, 0⟩] := List.mergeSort_of_pairwise (by decide)
+  unfold compact nonOverlapping
+  simp only [List.map]
+  rw [hr, hsrt]
+  decide
+
+open SwV.Model.C17 (resolveList resolveNode outside sortChunks viewFromChunks nonOverlapping compact maxInt64) in
+theorem one_chunk_resolve (st : St) (hc : st.chunks = [⟨0, 4, 0, [1, 2, 3, 4]⟩]) (hf : st.fileSize = 2) :
+    resolve st = [1, 2, 3, 4] := by
+  have hr : resolveList 0 (0 + maxInt64) [SwV.Model.C17.Node.data ⟨0, 4, 0, 0, 0⟩] = [⟨0, 4, 0, 0, 0⟩] := by
+    simp [resolveList, resolveNode, outside, maxInt64]
+  have hsrt : sortChunks [⟨0, 4, 0, 0, 0⟩] = [⟨0, 4, 0, 0, 0⟩] := List.mergeSort_of_pairwise (by decide)
+  unfold resolve
+  rw [hc, hf]
+  have ht : toC17 [⟨0, 4, 0, [1, 2, 3, 4]⟩] = [⟨0, 4, 0, 0, 0⟩] := by decide
+  rw [ht]
+  simp only [List.map]
+  unfold viewFromChunks nonOverlapping
+  rw [hr, hsrt]
+  decide
+
+/-- temp-file buffer: write 0 [1,2,3,4]; truncate 2; flush.  The dirty pages are not truncated and the temp-file flush
+    does not clamp to FileSize: a reader of the stored entry gets [1,2,3,4], POSIX says [1,2]
+    (finding Setattr/dirty-pages-not-truncated).  So `flush_eq_posix_partial` needs its "no truncate" hypothesis. -/
+theorem truncate_breaks_flush_witness :
+    resolve (flush (truncate (write { tk := true, limit := 4 } 0 [1, 2, 3, 4]) 2)).1 = [1, 2, 3, 4] ∧
+    ptruncate (pwrite [] 0 [1, 2, 3, 4]) 2 = [1, 2] := by
+  have h1 : tmpFlush (truncate (write { tk := true, limit := 4 } 0 [1, 2, 3, 4]) 2) =
+      { tk := true, limit := 4, lists := [], temp := [], hasTemp := false, fileSize := 2,
+        chunks := [⟨0, 4, 0, [1, 2, 3, 4]⟩], nextMt := 1, dirtyMeta := true } := by rfl
+  have h0 : (truncate (write { tk := true, limit := 4 } 0 [1, 2, 3, 4]) 2).tk = true := rfl
+  have ht : toC17 [⟨0, 4, 0, [1, 2, 3, 4]⟩] = [⟨0, 4, 0, 0, 0⟩] := by decide
+  refine ⟨?_, by decide⟩
+  apply one_chunk_resolve
+  · unfold flush
+    simp only [h0, if_true, h1]
+    rw [ht, one_chunk_compact]
+    decide
+  · unfold flush
+    simp only [h0, if_true, h1]
+
+/-! ### (P5) write/flush histories without truncation: the flushed entry is the POSIX file -/
+
+inductive Op
+  | w (off : Nat) (data : List Nat)
+  | f
+
+def run (st : St) : List Op → St
+  | [] => st
+  | .w off d :: r => run (write st off d) r
+  | .f :: r => run (flush st).1 r
+
+def posixRun (f : File) : List Op → File
+  | [] => f
+  | .w off d :: r => posixRun (pwrite f off d) r
+  | .f :: r => posixRun f r
+
+theorem posixRun_length_le : ∀ (ops : List Op) (f : File), f.length ≤ (posixRun f ops).length
+  | [], f => Nat.le_refl _
+  | .w off d :: r, f => by
+    have := posixRun_length_le r (pwrite f off d)
+    show f.length ≤ (posixRun (pwrite f off d) r).length
+    by_cases hd : d = []
+    · subst hd
+      have : pwrite f off [] = f := rfl
+      rw [this] at *
+      assumption
+    · rw [SwV.Lemmas.C30.pwrite_length f off d hd] at this
+      omega
+  | .f :: r, f => posixRun_length_le r f
+
+/-- the state invariant (SwV.Lemmas.C30.SInv: interval invariant; FileSize = POSIX length; dirty bytes below FileSize —
+    so the flush clamp min(Size, FileSize − Offset) is the identity; chunk mtimes distinct and below the next one; chunks
+    inside FileSize; CONTENT: every position carries its dirty byte if dirty, else the content byte (C17 `ByteOk`) of
+    the chunk list) holds along every write/flush history, for both buffers -/
+theorem run_sinv : ∀ (ops : List Op) (st : St) (f : File), SwV.Lemmas.C30.SInv st f →
+    (∀ off d, Op.w off d ∈ ops → d ≠ []) → (posixRun f ops).length ≤ SwV.Model.C17.maxInt64 →
+    SwV.Lemmas.C30.SInv (run st ops) (posixRun f ops)
+  | [], _, _, h, _, _ => h
+  | .w off d :: r, st, f, h, hne, hmax => by
+    obtain ⟨h1, _, _⟩ := SwV.Lemmas.C30.write_sinv h off d (hne off d (by simp))
+    exact run_sinv r _ _ h1 (fun o d' hm => hne o d' (List.mem_cons_of_mem _ hm)) hmax
+  | .f :: r, st, f, h, hne, hmax => by
+    have hlen := posixRun_length_le r f
+    have hmax' : (posixRun f r).length ≤ SwV.Model.C17.maxInt64 := hmax
+    obtain ⟨h1, _, _, _⟩ := SwV.Lemmas.C30.flush_sinv h (by omega)
+    exact run_sinv r _ _ h1 (fun o d' hm => hne o d' (List.mem_cons_of_mem _ hm)) hmax'
+
+/-- `_partial` (hypothesis "no truncate in the history" = complement of the findings about Setattr, see
+    `truncate_breaks_flush_witness`).  After ANY history of non-empty writes (any offsets, overlapping, out of order) and
+    flushes, followed by a flush, a fresh reader of the stored entry (C17's reader) gets exactly the POSIX file — both
+    buffers, every chunk limit ≥ 1, including the auto-saves of the in-memory buffer (TotalSize ≥ limit; writes longer
+    than the limit are uploaded AND buffered), the page loop of the temp-file flush and CompactFileChunks in every flush. -/
+theorem flush_eq_posix_partial (tk : Bool) (limit : Nat) (hl : 0 < limit) (ops : List Op)
+    (hne : ∀ off d, Op.w off d ∈ ops → d ≠ []) (hmax : (posixRun [] ops).length ≤ SwV.Model.C17.maxInt64) :
+    resolve (flush (run { tk := tk, limit := limit } ops)).1 = posixRun [] ops := by
+  have h1 := run_sinv ops _ [] (SwV.Lemmas.C30.sinv_init tk limit hl) hne hmax
+  obtain ⟨a1, a2, _, _⟩ := SwV.Lemmas.C30.flush_sinv h1 hmax
+  exact SwV.Lemmas.C30.resolve_of_sinv a1 a2 hmax
+
+/-- the same seen from the reading side: during the history (before the final flush) every position carries its dirty byte
+    if dirty, else the stored entry's content byte — in particular FileSize is the POSIX length -/
+theorem run_fileSize (tk : Bool) (limit : Nat) (hl : 0 < limit) (ops : List Op)
+    (hne : ∀ off d, Op.w off d ∈ ops → d ≠ []) (hmax : (posixRun [] ops).length ≤ SwV.Model.C17.maxInt64) :
+    (run { tk := tk, limit := limit } ops).fileSize = (posixRun [] ops).length ∧
+    Inv (run { tk := tk, limit := limit } ops).tk (run { tk := tk, limit := limit } ops).temp (run { tk := tk, limit := limit } ops).lists ∧
+    ∀ p b, dirtyByte (run { tk := tk, limit := limit } ops).tk (run { tk := tk, limit := limit } ops).temp
+        (run { tk := tk, limit := limit } ops).lists p = some b →
+      p < (posixRun [] ops).length ∧ (posixRun [] ops).getD p 0 = b := by
+  have h1 := run_sinv ops _ [] (SwV.Lemmas.C30.sinv_init tk limit hl) hne hmax
+  refine ⟨h1.fs, (inv_iff _ _ _).2 h1.inv, ?_⟩
+  intro p b hb
+  exact ⟨by rw [← h1.fs]; exact h1.dirtyIn p b hb, h1.dirty p b hb⟩
+
+/-- the hypotheses of `flush_eq_posix_partial` are satisfiable (overlapping, out-of-order writes around a flush) -/
+example : (∀ off d, Op.w off d ∈ [Op.w 2 [1, 2, 3], .f, .w 0 [9], .w 3 [7, 7, 7]] → d ≠ []) ∧
+    (posixRun [] [Op.w 2 [1, 2, 3], .f, .w 0 [9], .w 3 [7, 7, 7]]).length ≤ SwV.Model.C17.maxInt64 ∧
+    posixRun [] [Op.w 2 [1, 2, 3], .f, .w 0 [9], .w 3 [7, 7, 7]] = [9, 0, 1, 7, 7, 7] := by
+  refine ⟨?_, by decide, by decide⟩
+  intro off d h
+  simp at h
+  rcases h with ⟨_, rfl⟩ | ⟨_, rfl⟩ | ⟨_, rfl⟩ <;> simp
+
+/-! ### bridges: the model's branch conditions are the ones in the source (regenerated from /repo on every check);
+    pinned sources of every modelled function (a source edit breaks the obligation and asks for a model review) -/
+
+/-- memAddPage: a write longer than the chunk limit is uploaded at once (and still buffered) -/
+theorem bridge_addpage_big_cond : SwV.Gen.C30.addpage_big_cond = "len(data) > int(pages.f.wfs.option.ChunkSizeLimit)" := by decide
+/-- memAddPage: the largest list is saved when the buffer holds ≥ limit bytes -/
+theorem bridge_addpage_full_cond : SwV.Gen.C30.addpage_full_cond = "pages.intervals.TotalSize() >= pages.f.wfs.option.ChunkSizeLimit" := by decide
+/-- saveLargest: the flush clamp by the FileSize attribute -/
+theorem bridge_flush_clamp_assign : SwV.Gen.C30.flush_clamp_assign = "chunkSize := min(maxList.Size(), fileSize-maxList.Offset())" := by decide
+/-- saveLargest: a clamp of 0 saves nothing and reports `false` (ends the flush loop) -/
+theorem bridge_flush_clamp_zero_cond : SwV.Gen.C30.flush_clamp_zero_cond = "chunkSize == 0" := by decide
+/-- largestIdx: `≤`, so the LAST list of maximal size is taken -/
+theorem bridge_largest_cond : SwV.Gen.C30.largest_cond = "maxSize <= list.Size()" := by decide
+/-- addInterval: the single-list fast path -/
+theorem bridge_fastpath_cond : SwV.Gen.C30.fastpath_cond = "lastSpan.Tail.Offset+lastSpan.Tail.Size == offset" := by decide
+/-- addToTail (temp-file buffer): merge when the node continues the tail in the temp file -/
+theorem bridge_tmp_tail_merge_cond : SwV.Gen.C30.tmp_tail_merge_cond = "list.Tail.TempOffset+list.Tail.Size == node.TempOffset" := by decide
+/-- truncate: only chunks crossing the new size enter the new chunk list -/
+theorem bridge_truncate_chunk_cond : SwV.Gen.C30.truncate_chunk_cond = "chunk.Offset+int64Size > int64(req.Size)" := by decide
+/-- truncate: chunks are touched only when the size shrinks -/
+theorem bridge_truncate_shrink_cond : SwV.Gen.C30.truncate_shrink_cond = "req.Size < filer.FileSize(entry)" := by decide
+/-- write: FileSize = max(offset+len, FileSize) -/
+theorem bridge_write_filesize_assign : SwV.Gen.C30.write_filesize_assign = "entry.Attributes.FileSize = uint64(max(req.Offset+int64(len(data)), int64(entry.Attributes.FileSize)))" := by decide
+/-- FileHandle.readFromChunks computes the chunk view once per handle (judged, not modelled) -/
+theorem bridge_view_cache_cond : SwV.Gen.C30.view_cache_cond = "fh.entryViewCache == nil" := by decide
+theorem bridge_src_mem_AddInterval : SwV.Gen.C30.src_mem_AddInterval = "050c3cecf3daae37" := by decide
+theorem bridge_src_mem_ReadDataAt : SwV.Gen.C30.src_mem_ReadDataAt = "3345bf3ddb53d6e4" := by decide
+theorem bridge_src_mem_RemoveLargest : SwV.Gen.C30.src_mem_RemoveLargest = "d60a6d1669e1a3e8" := by decide
+theorem bridge_src_mem_removeList : SwV.Gen.C30.src_mem_removeList = "2e6b94ef9c2e090d" := by decide
+theorem bridge_src_mem_ReadData : SwV.Gen.C30.src_mem_ReadData = "f509b2f346f930f5" := by decide
+theorem bridge_src_mem_subList : SwV.Gen.C30.src_mem_subList = "e7c71f5c4623f610" := by decide
+theorem bridge_src_tmp_AddInterval : SwV.Gen.C30.src_tmp_AddInterval = "37f66af525bde9db" := by decide
+theorem bridge_src_tmp_ReadDataAt : SwV.Gen.C30.src_tmp_ReadDataAt = "d9ed838122711f85" := by decide
+theorem bridge_src_tmp_subList : SwV.Gen.C30.src_tmp_subList = "1ab5fdf65676ea67" := by decide
+theorem bridge_src_tmp_ReadData : SwV.Gen.C30.src_tmp_ReadData = "586d6a04fb2378c4" := by decide
+theorem bridge_src_tmp_ToReader : SwV.Gen.C30.src_tmp_ToReader = "7dbe4c73c0d3a8b1" := by decide
+theorem bridge_src_tmp_addNodeToTail : SwV.Gen.C30.src_tmp_addNodeToTail = "70f1171d9239a87a" := by decide
+theorem bridge_src_mem_AddPage : SwV.Gen.C30.src_mem_AddPage = "b9920f861738f311" := by decide
+theorem bridge_src_mem_flushAndSave : SwV.Gen.C30.src_mem_flushAndSave = "934cf0723b7f01fe" := by decide
+theorem bridge_src_mem_saveLargest : SwV.Gen.C30.src_mem_saveLargest = "13261a12862f5617" := by decide
+theorem bridge_src_mem_saveAll : SwV.Gen.C30.src_mem_saveAll = "0b207a6e624383f5" := by decide
+theorem bridge_src_mem_saveToStorage : SwV.Gen.C30.src_mem_saveToStorage = "22720d64a3e196f8" := by decide
+theorem bridge_src_tmp_AddPage : SwV.Gen.C30.src_tmp_AddPage = "c01a4adf9d3e85d9" := by decide
+theorem bridge_src_tmp_FlushData : SwV.Gen.C30.src_tmp_FlushData = "6933ebfb994794cb" := by decide
+theorem bridge_src_tmp_saveAll : SwV.Gen.C30.src_tmp_saveAll = "20ff157fc610e71a" := by decide
+theorem bridge_src_tmp_saveToStorage : SwV.Gen.C30.src_tmp_saveToStorage = "09a048bff318aaa4" := by decide
+theorem bridge_src_fh_Write : SwV.Gen.C30.src_fh_Write = "249d9d6a260e6ce0" := by decide
+theorem bridge_src_fh_doFlush : SwV.Gen.C30.src_fh_doFlush = "115c0e3c4d448870" := by decide
+theorem bridge_src_file_Setattr : SwV.Gen.C30.src_file_Setattr = "3b0520326cbf9122" := by decide
+theorem bridge_src_file_addChunks : SwV.Gen.C30.src_file_addChunks = "ff750bc90da3b3d0" := by decide
+
 end SwV.Props.C30
